@@ -255,7 +255,14 @@ func do(h http.Handler, rq Req) (resp Resp) {
 		body = bytes.NewReader(rq.Body)
 	}
 	target := rq.Path
-	r := httptest.NewRequest(rq.Method, "http://localhost"+target, body)
+	var r *http.Request
+	func() {
+		defer func() { recover() }() // NewRequest panics on what net/http would refuse to parse
+		r = httptest.NewRequest(rq.Method, "http://localhost"+target, body)
+	}()
+	if r == nil {
+		return Resp{Status: -1, Header: http.Header{}}
+	}
 	if rq.Host != "" {
 		r.Host = rq.Host
 	}
